@@ -130,6 +130,9 @@ pub struct SchemaGen<'r> {
 	/// allow shapes the Avro specification forbids (duplicate kinds in unions, nested unions,
 	/// odd logical-type placements)
 	pub wild: bool,
+	/// names outside the ASCII alphabet now and then (off for the interop stream: the other
+	/// implementation refuses - or panics on - them)
+	pub odd_names: bool,
 	/// include decimal logical types (they need the decimal oracle for str/f64 presentations)
 	pub decimals: bool,
 	/// keep decimals within the documented limits (fixed size 1..16, scale ≤ 28)
@@ -146,6 +149,7 @@ impl<'r> SchemaGen<'r> {
 			max_nodes,
 			next_name: 0,
 			wild,
+			odd_names: true,
 			decimals: true,
 			decimal_limits: false,
 		}
@@ -155,10 +159,11 @@ impl<'r> SchemaGen<'r> {
 		let n = self.next_name;
 		self.next_name += 1;
 		let ns = *NAMESPACES.choose(self.rng).unwrap();
+		let odd = if self.odd_names { odd_name_suffix(self.rng) } else { "" };
 		if ns.is_empty() {
-			format!("T{n}")
+			format!("T{n}{odd}")
 		} else {
-			format!("{ns}.T{n}")
+			format!("{ns}.T{n}{odd}")
 		}
 	}
 
@@ -457,6 +462,16 @@ pub fn gen_wrapping_u128(rng: &mut StdRng) -> u128 {
 		_ => return (1u128 << 127) + if rng.gen() { 0 } else { rng.gen_range(0..300) },
 	};
 	u128::MAX - k
+}
+
+/// Now and then a name outside the ASCII alphabet the specification asks for but the crate does
+/// not enforce: letters, and characters that Rust's `{:?}` of a string escapes although neither
+/// JSON nor the canonical form does (combining marks, zero-width and soft-hyphen characters).
+pub fn odd_name_suffix(rng: &mut StdRng) -> &'static str {
+	if !rng.gen_bool(0.08) {
+		return "";
+	}
+	*["é", "e\u{301}", "\u{200b}", "名", "\u{ad}x", "\u{e33}"].choose(rng).unwrap()
 }
 
 pub fn gen_int_in(rng: &mut StdRng, lo: i128, hi: i128) -> i128 {
